@@ -35,6 +35,7 @@ func runC06(c *core.Ctx) {
 	type docCase struct {
 		expect, r0, r1, mut string
 		builtin            string
+		toks               []gen.Tok
 	}
 	feats := map[string]int{}
 	cases := make([]docCase, nDocs)
@@ -51,6 +52,7 @@ func runC06(c *core.Ctx) {
 			cases[i].builtin = "1"
 		}
 		cases[i].expect = "ok " + DumpSchemaDoc(doc, false, nil)
+		cases[i].toks = g.Toks
 		cases[i].r0 = gen.Render(c.Rng, g.Toks, 0)
 		cases[i].r1 = gen.Render(c.Rng, g.Toks, 1)
 		cases[i].mut = gen.Render(c.Rng, gen.MutateToks(c.Rng, g.Toks, schemaClasses), c.Rng.Intn(2))
@@ -58,7 +60,8 @@ func runC06(c *core.Ctx) {
 	for k, v := range feats {
 		c.Count("feature_"+k, int64(v))
 	}
-	var okMut, errMut int64
+	var okMut, errMut, nq int64
+	nQuoted := nDocs / 4
 	c.Pool.ParFor(nDocs, func(w, i int) {
 		cs := cases[i]
 		for _, in := range []string{cs.r0, cs.r1} {
@@ -72,6 +75,19 @@ func runC06(c *core.Ctx) {
 			}
 		}
 		c.Seen(true, []byte(cs.r0))
+		if i%4 == 0 {
+			c.CheckCase(w, "ps", thm, []byte("1"), []byte(strconv.Itoa(1+i%7)), []byte(cs.builtin), []byte(cs.r0))
+			c.CheckCase(w, "ps", thm, []byte("1"), []byte("0"), []byte(cs.builtin), []byte(cs.r0))
+		}
+		// every word of the document written as a string literal with the same contents
+		if i < nQuoted {
+			for _, k := range gen.WordIndexes(cs.toks) {
+				qt := append([]gen.Tok(nil), cs.toks...)
+				qt[k] = gen.Quoted(qt[k], (i+k)%3 == 0)
+				c.CheckCase(w, "ps", thm, []byte("1"), []byte("0"), []byte("0"), []byte(gen.Render(nil, qt, 0)))
+				atomic.AddInt64(&nq, 1)
+			}
+		}
 		args := [][]byte{[]byte("1"), []byte("0"), []byte("0"), []byte(cs.mut)}
 		m := c.Impl(w, "ps", args...)
 		v, cur, none := c.Tie(w, "ps", m, args...)
@@ -87,6 +103,7 @@ func runC06(c *core.Ctx) {
 	c.Evals += int64(nDocs) * 5
 	c.Programs = int64(nDocs)
 	c.Count("generated_documents", int64(nDocs))
+	c.Count("words_written_as_string_literals", nq)
 	c.Count("mutants_accepted", okMut)
 	c.Count("mutants_rejected", errMut)
 	for i := 0; i < 3; i++ {
